@@ -33,6 +33,8 @@ def lean_queries(cases, caps, queries):
         if caps[i] is None or caps[i].nodump:
             continue
         lines += P.case_block(str(i), caps[i], None)
+        if any(q in ('STYPE', 'PASSES') for q in qs):
+            lines += caps[i].raw
         for q in qs:
             lines.append('Q ' + q)
     ans = P.run_lean(lines, nproc=12)
@@ -56,7 +58,7 @@ def check_c08(tier, seed, log=print):
     for i, d in enumerate(gen):
         cases.append(dict(family='corpus', src=d.source('T'), meta={}))
     caps = P.run_capture([c['src'] for c in cases])
-    ans = lean_queries(cases, caps, {i: ['TIE', 'NULLABLE'] for i in range(len(cases))})
+    ans = lean_queries(cases, caps, {i: ['TIE', 'NULLABLE', 'STYPE'] for i in range(len(cases))})
     n = decided = ties = 0
     unknown = 0
     samples = []
@@ -106,7 +108,12 @@ def check_c08(tier, seed, log=print):
                 run.violation('spurious-ambiguity', dict(definition=c['src'], derive_errors=cap.errs, closure=v,
                                                          what='the derive reports an ambiguity but no string is matched by two top-priority patterns (tieFreeB_sound / tieFreeCBFast_sound)'),
                               key='spurious|' + c['src'])
+    st_same = sum(1 for i in range(len(cases)) if ans.get((i, 'STYPE'), '').startswith('SAME'))
+    st_amb = sum(1 for i in range(len(cases)) if ans.get((i, 'STYPE'), '').startswith('SAME') and int(ans[(i, 'STYPE')].split(' ')[2]) > 0)
+    st_diff = [dict(definition=cases[i]['src'], answer=ans[(i, 'STYPE')][:300]) for i in range(len(cases)) if ans.get((i, 'STYPE'), '').startswith('DIFF')][:5]
     run.coverage.update(dict(evaluations=n, distinct_nontrivial=ties, decided=decided, undecided_or_lookaround=unknown, lookaround_family=look_stats,
+                             get_state_type_predicted=dict(same=st_same, with_ambiguity=st_amb, differ=st_diff,
+                                                           note='StateType.stateType (Lean model of Graph::get_state_type, theorems stateType_accept_iff / stateType_ambiguous_iff / stateType_ambiguous_names) applied to the hook\'s dump of the leaves matching in every DFA state: every accept and every Disambiguation error of the real derive is recomputed; a difference alone is recorded, the tie decision above decides the property'),
                              rule='definitions built from a pool of overlapping patterns (equal explicit, default and distinct priorities), random regex pairs and the lexer corpus; '
                                   'the real derive\'s Disambiguation errors (captured with the leaves they name) vs the Lean tie search whose both answers are proved (tie_witness / tieFreeB_sound; tieC_witness / tieFreeCBFast_sound for patterns with look-around, where a tie is a string in a context); non-trivial = a tie exists',
                              samples=samples))
